@@ -10,6 +10,7 @@ package main
 // enabled and disabled.
 
 import (
+	"sort"
 	"context"
 	"fmt"
 	"os"
@@ -241,7 +242,31 @@ func c07Scenarios() []sched.Scenario {
 						trace = append(trace, "nack")
 					}
 				}
+				// WAL file modification times come from the file system (real time) while the code compares them with
+				// the virtual clock (MinFileAge, safe age): every new or modified WAL file gets the current VIRTUAL
+				// time as its mtime, so no comparison depends on how long an execution takes on a loaded machine
+				assigned := map[string]time.Time{}
+				fixMtimes := func() {
+					if walDir == "" {
+						return
+					}
+					names, _ := filepath.Glob(filepath.Join(walDir, "*.wal"))
+					sort.Strings(names)
+					for _, n := range names {
+						st, err := os.Stat(n)
+						if err != nil {
+							continue
+						}
+						if a, ok := assigned[n]; ok && st.ModTime().Equal(a) {
+							continue
+						}
+						vt := vclock.Now().Truncate(time.Microsecond)
+						os.Chtimes(n, vt, vt)
+						assigned[n] = vt
+					}
+				}
 				tick := func() {
+					fixMtimes()
 					vclock.Advance(c07RecoveryInterval)
 					if sys.walW != nil {
 						verifWALMaintenanceTick(sys.buf, sys.walW, safeAge, cfg, sys.rcb, sys.ccb, zerolog.Nop())
@@ -255,6 +280,7 @@ func c07Scenarios() []sched.Scenario {
 					// the events of a script are not atomic with respect to the background threads: a worker may
 					// run between two events (e.g. flush between "storage fails" and the next write)
 					vsched.Point("script-event")
+					fixMtimes()
 					switch c07Alphabet[e].kind {
 					case "W":
 						write(c07Base + k + 1)
@@ -290,6 +316,7 @@ func c07Scenarios() []sched.Scenario {
 				}
 				// drain: storage works again; maintenance runs twice; graceful shutdown; restart with recovery; final flush
 				vsched.Point("script-end")
+				fixMtimes()
 				store.set(false)
 				tick()
 				tick()
